@@ -336,6 +336,7 @@ fn tree_choose(root: &Tree, depth: usize, path: u64) -> bool {
 pub struct Setup {
     pub ents: Vec<(u32, i32)>,          // alive (index, generation), ascending
     pub raised: Vec<(u32, i32)>,        // subset of `ents`: created atomically, not yet merged by `maintain()`
+    pub killed: Vec<(u32, i32)>,        // subset of `ents`: `Entities::delete` called, deletion pending until `maintain()`
     pub stores: [Vec<(u32, i64)>; 16],  // ascending
     pub bits: [Vec<u32>; 4],            // ascending
 }
@@ -383,6 +384,10 @@ impl Setup {
             let mut top = n as usize;   // first index of the constructible suffix
             if no_dead { while top > 0 && is_r1[top - 1] { top -= 1; } }
             self.raised.retain(|e| e.1 >= 2 || (e.0 as usize) >= top);
+            // killed: any alive (index, generation); may overlap `raised`
+            self.killed.retain(|e| e.0 < n && gen_of[e.0 as usize] == e.1);
+            self.killed.sort();
+            self.killed.dedup_by_key(|e| e.0);
         }
         for k in 0..16 {
             let st = &mut self.stores[k];
@@ -416,6 +421,19 @@ impl Setup {
         if !self.raised.is_empty() {
             out.push_str("raised");
             let e = &self.raised;
+            let mut i = 0;
+            while i < e.len() {
+                let mut j = i;
+                while j + 1 < e.len() && e[j + 1].0 == e[j].0 + 1 && e[j + 1].1 == e[i].1 { j += 1; }
+                if j == i { let _ = write!(out, " {}:{}", e[i].0, e[i].1); }
+                else { let _ = write!(out, " {}-{}:{}", e[i].0, e[j].0, e[i].1); }
+                i = j + 1;
+            }
+            out.push('\n');
+        }
+        if !self.killed.is_empty() {
+            out.push_str("killed");
+            let e = &self.killed;
             let mut i = 0;
             while i < e.len() {
                 let mut j = i;
@@ -552,6 +570,22 @@ fn build_world(s: &Setup) -> H {
     let mut cs15 = ChangeSet::new();
     for &(i, v) in &s.stores[14] { cs14.add(cur[i as usize], v); }
     for &(i, v) in &s.stores[15] { cs15.add(cur[i as usize], v); }
+    // pending deletions: `Entities::delete` (= `Allocator::kill_atomic`) marks the entity in the `killed` set;
+    // until the next `maintain()` it stays alive, keeps its components and is a member of every join mask.
+    // NO maintain afterwards. (That the entity is still *yielded by the joins* is what the joins under test
+    // must show; it is deliberately not asserted here.)
+    {
+        let ents = world.entities();
+        for &(i, g) in &s.killed {
+            if want[i as usize] != g { die("setup: killed entry is not an alive (index, generation)"); }
+            let e = cur[i as usize];
+            if ents.delete(e).is_err() { die(&format!("setup: Entities::delete({}:{}) returned Err", i, g)); }
+            if !ents.is_alive(e) { die(&format!("setup: {}:{} is no longer alive right after Entities::delete (before maintain)", i, g)); }
+        }
+        for &(i, _) in &s.killed {
+            if !ents.is_alive(cur[i as usize]) { die("setup: an entity with a pending deletion is not alive"); }
+        }
+    }
     let mk = |v: &Vec<u32>| { let mut b = BitSet::new(); for &i in v { b.add(i); } b };
     let mut h = H {
         world, cs14, cs15,
@@ -1005,7 +1039,7 @@ fn run_file(path: &str, out: &mut String) {
                 have_case = true;
                 let _ = writeln!(out, "case {}", ts.get(1).copied().unwrap_or("anon"));
             }
-            "ents" | "raised" | "store" | "bitset" => {
+            "ents" | "raised" | "killed" | "store" | "bitset" => {
                 if !have_case { have_case = true; out.push_str("case anon\n"); }
                 if world.is_some() { bad("setup line after the first op of a case"); }
                 match ts[0] {
@@ -1015,6 +1049,13 @@ fn run_file(path: &str, out: &mut String) {
                         let g: i32 = g.parse().unwrap_or_else(|_| bad("bad generation"));
                         if g < 1 || hi > MAXIDX { bad("bad ents token"); }
                         for i in lo..=hi { setup.ents.push((i, g)); }
+                    },
+                    "killed" => for t in &ts[1..] {
+                        let (r, g) = t.split_once(':').unwrap_or_else(|| bad("bad killed token"));
+                        let (lo, hi) = parse_range(r).unwrap_or_else(|| bad("bad killed token"));
+                        let g: i32 = g.parse().unwrap_or_else(|_| bad("bad generation"));
+                        if g < 1 || hi > MAXIDX { bad("bad killed token"); }
+                        for i in lo..=hi { setup.killed.push((i, g)); }
                     },
                     "raised" => for t in &ts[1..] {
                         let (r, g) = t.split_once(':').unwrap_or_else(|| bad("bad raised token"));
